@@ -66,7 +66,11 @@ func genC10(t *rapid.T) c10Case {
 		case k == 9:
 			op.Kind = "decodeCorrupt"
 		case k == 10:
-			op.Kind = "scribble"
+			if rapid.Bool().Draw(t, "reslice") {
+				op.Kind = "reslice"
+			} else {
+				op.Kind = "scribble"
+			}
 		default:
 			op.Kind = "remarshal"
 		}
@@ -179,6 +183,15 @@ var c10 = &vh.Prop[c10Case]{
 					_ = p.Unmarshal(bad, scratch.Interface())
 				}
 				x.Label("op:decodeCorrupt")
+			case "reslice":
+				// the caller shortens the slices of a target (s = s[:n]) and keeps the backing arrays:
+				// what lies beyond len is stale and must never resurface
+				if len(targets) == 0 {
+					continue
+				}
+				tg := &targets[op.A%len(targets)]
+				resliceTop(c.Types[tg.typ], tg.rv, &tg.model, op.B)
+				x.Label("op:reslice")
 			case "newTarget":
 				rv := vh.ToReflect(ts, op.Val)
 				targets = append(targets, c10Target{typ: op.Type, rv: rv, model: vh.FromReflect(ts, rv)})
@@ -250,3 +263,31 @@ var c10 = &vh.Prop[c10Case]{
 func init() { registrars = append(registrars, c10.Register) }
 
 func TestC10(t *testing.T) { c10.Check(t, vh.N(8000, 12000)) }
+
+// resliceTop shortens the slice-typed fields of a struct target (and the
+// model with them), keeping capacity.
+func resliceTop(ts *vh.TSpec, rv reflect.Value, model *vh.Val, salt int) {
+	u := ts.Under()
+	if u.Kind != vh.KStruct {
+		return
+	}
+	for i, f := range u.Fields {
+		fu := f.Type.Under()
+		if _, _, ok := f.Enc(); !ok || fu.Kind != vh.KSlice {
+			continue
+		}
+		fv := rv.Field(i)
+		n := fv.Len()
+		if n == 0 || !fv.CanSet() {
+			continue
+		}
+		keep := (salt + i) % (n + 1)
+		if keep == n {
+			keep = n / 2
+		}
+		fv.SetLen(keep)
+		if !model.L[i].Nil {
+			model.L[i].L = model.L[i].L[:keep]
+		}
+	}
+}
